@@ -45,6 +45,8 @@ def oracle(cfg, xs, shape=None, stats=None):
   m = G.model(cfg)
   u, ui = m["u"], m["u_in"]
   base = {"cls": cfg["cls"], "variant": variant(cfg)}
+  if cfg["kw"].get("use_stochastic_rounding"):
+    base["sr_infer"] = True     # stochastic-rounding flag set, inference phase
   xs = np.asarray(xs, dtype=np.float32)
   try:
     q = G.build(cfg)
